@@ -102,7 +102,8 @@ class Write(Harness):
              "sequence lengths around multiples of the line width are within reach")
     bounds = {"quick": "Interval, Bed6, ChromosomeSize, VCF (info as string), GTF, two-line FASTA, wrapped FASTA (line width 2-3, sequence "
                        "lengths w-1, w, w+1, 2w), FASTQ; 0-3 rows; integer cells symbolic in [0,12] ([-12,12] for 2-row BED3); text cells "
-                       "symbolic; every split of the rows into successive write calls (including empty pieces)",
+                       "symbolic; every split of the rows into successive write calls (including empty pieces), the pieces being slices of the "
+                       "one table object, which is then written once more",
               "thorough": "integer cells in [0, 10^4], 4 rows, longer sequences"}
     assumptions = ("float columns (bedGraph, narrowPeak) are not covered: float_to_strings formats with Python str()",
                    "gzip targets and append mode to an existing file are not covered (file object contract only)")
@@ -147,16 +148,19 @@ class Write(Harness):
         B = buffer_type(skel)
         n = len(skel["rows"])
 
+        whole = build_table(ctx, skel, x)        # ONE table object: every write below is given this object or a slice of it
+
         def write(pieces):
             f = ctx.wfile()
             w = NpBufferedWriter(f, B)
             for rows in pieces:
-                w.write(build_table(ctx, skel, x, rows))
+                w.write(whole if len(rows) == n else whole[(rows[0] if rows else 0):(rows[-1] + 1 if rows else 0)])
             return ctx.file_bytes(f)
         single = write([list(range(n))])
         res = dict(single=single)
         if skel["cuts"]:
             res["split"] = write(partition(list(range(n)), skel["cuts"]))
+        res["again"] = write([list(range(n))])      # the same table written once more (writing must not change the table)
         # read the written bytes back with the library's reader (composition on the symbolic output)
         if n:
             back = NpDataclassReader(NumpyFileReader(ctx.file(single), B), lazy=False).read()
@@ -244,10 +248,11 @@ class Write(Harness):
         conj = []
         if not self._check_bytes(skel, x, out["single"], conj):
             return False
-        if "split" in out:
-            if len(out["split"]) != len(out["single"]):
-                return False
-            conj += [TI(a) == TI(b) for a, b in zip(out["split"], out["single"])]
+        for key in ("split", "again"):
+            if key in out:
+                if len(out[key]) != len(out["single"]):
+                    return False
+                conj += [TI(a) == TI(b) for a, b in zip(out[key], out["single"])]
         if "back" in out:
             n = len(skel["rows"])
             if out["n_back"] != n:
@@ -285,6 +290,8 @@ class Write(Harness):
             return f"{skel['table']} table written as {bytes(cout['single'])!r}, canonical serialisation is {bytes(exp)!r}"
         if "split" in cout and cout["split"] != exp:
             return f"{skel['table']} table written in pieces at {skel['cuts']}: {bytes(cout['split'])!r}, one write gives {bytes(exp)!r}"
+        if cout.get("again", exp) != exp:
+            return f"{skel['table']} table written once more after the first writes: {bytes(cout['again'])!r}, the first write gave {bytes(exp)!r}"
         if "back" in cout:
             n = len(skel["rows"])
             for c, (nm, kind) in enumerate(TABLES[skel["table"]]["cols"]):
